@@ -42,35 +42,35 @@ void h_u128(void) {
     if ((uint64_t)x + lo < lo) REACH("u128_accum_u64 carry into the high limb");
 }
 void h_i128(void) {
-    INPUT(sa_i128, x); INPUT(sa_i128, y); INPUT(int64_t, hi); INPUT(uint64_t, lo); INPUT(int64_t, v); INPUT(unsigned, n); INPUT(int, sign);
+    INPUT(sa_i128, xi); INPUT(sa_i128, yi); INPUT(int64_t, shi); INPUT(uint64_t, lo); INPUT(int64_t, v); INPUT(unsigned, n); INPUT(int, sign);
     secp256k1_int128 r, s;
-    secp256k1_i128_load(&r, hi, lo);
-    __CPROVER_assert(i128v(&r) == (sa_i128)(((sa_u128)(uint64_t)hi << 64) | lo), "C05 i128_load: hi 2^64 + lo (two's complement)");
+    secp256k1_i128_load(&r, shi, lo);
+    __CPROVER_assert(i128v(&r) == (sa_i128)(((sa_u128)(uint64_t)shi << 64) | lo), "C05 i128_load: shi 2^64 + lo (two's complement)");
     secp256k1_i128_from_i64(&r, v);
     __CPROVER_assert(i128v(&r) == (sa_i128)v, "C05 i128_from_i64: sign-extended value");
     __CPROVER_assert(secp256k1_i128_to_i64(&r) == v, "C05 i128_to_i64(from_i64(v)) == v");
-    u128set((secp256k1_uint128 *)&r, (sa_u128)x); u128set((secp256k1_uint128 *)&s, (sa_u128)y);
-    __CPROVER_assert(secp256k1_i128_to_u64(&r) == (uint64_t)x, "C05 i128_to_u64: low 64 bits");
-    __CPROVER_assert(secp256k1_i128_eq_var(&r, &s) == (x == y), "C05 i128_eq_var: equality");
-    if (x >= INT64_MIN && x <= INT64_MAX) __CPROVER_assert((sa_i128)secp256k1_i128_to_i64(&r) == x, "C05 i128_to_i64: the value when it fits");
+    u128set((secp256k1_uint128 *)&r, (sa_u128)xi); u128set((secp256k1_uint128 *)&s, (sa_u128)yi);
+    __CPROVER_assert(secp256k1_i128_to_u64(&r) == (uint64_t)xi, "C05 i128_to_u64: low 64 bits");
+    __CPROVER_assert(secp256k1_i128_eq_var(&r, &s) == (xi == yi), "C05 i128_eq_var: equality");
+    if (xi >= INT64_MIN && xi <= INT64_MAX) __CPROVER_assert((sa_i128)secp256k1_i128_to_i64(&r) == xi, "C05 i128_to_i64: the value when it fits");
     __CPROVER_assume(n < 127 && (sign == 1 || sign == -1));
-    __CPROVER_assert(secp256k1_i128_check_pow2(&r, n, sign) == (x == (sa_i128)sign * ((sa_i128)1 << n)), "C05 i128_check_pow2: r == sign 2^n");
+    __CPROVER_assert(secp256k1_i128_check_pow2(&r, n, sign) == (xi == (sa_i128)sign * ((sa_i128)1 << n)), "C05 i128_check_pow2: r == sign 2^n");
     secp256k1_i128_rshift(&r, n);
-    __CPROVER_assert(i128v(&r) == (x >> n), "C05 i128_rshift: arithmetic shift by n");
-    if (x < 0 && n >= 64) REACH("i128_rshift negative by >= 64");
-    if (x < 0 && n > 0 && n < 64) REACH("i128_rshift negative by < 64");
-    if (x == y) REACH("i128_eq_var equal");
+    __CPROVER_assert(i128v(&r) == (xi >> n), "C05 i128_rshift: arithmetic shift by n");
+    if (xi < 0 && n >= 64) REACH("i128_rshift negative by >= 64");
+    if (xi < 0 && n > 0 && n < 64) REACH("i128_rshift negative by < 64");
+    if (xi == yi) REACH("i128_eq_var equal");
 }
 /* bounded stand-in: one operand restricted to 32 bits (full 64x64 multiplier equivalence is the known-hard case) */
 void h_u128_mul_bounded(void) {
-    INPUT(uint64_t, a); INPUT(uint64_t, b); INPUT(sa_u128, x);
+    INPUT(uint64_t, a); INPUT(uint64_t, b); INPUT(sa_u128, acc);
     secp256k1_uint128 r;
     __CPROVER_assume((a >> 32) == 0);
     secp256k1_u128_mul(&r, a, b);
     __CPROVER_assert(u128v(&r) == (sa_u128)a * b, "C05 u128_mul (a < 2^32): a b");
-    u128set(&r, x);
+    u128set(&r, acc);
     secp256k1_u128_accum_mul(&r, a, b);
-    __CPROVER_assert(u128v(&r) == (sa_u128)(x + (sa_u128)a * b), "C05 u128_accum_mul (a < 2^32): r + a b modulo 2^128");
+    __CPROVER_assert(u128v(&r) == (sa_u128)(acc + (sa_u128)a * b), "C05 u128_accum_mul (a < 2^32): r + a b modulo 2^128");
     if (a == 0xFFFFFFFFULL && b == 0xFFFFFFFFFFFFFFFFULL) REACH("u128_mul extreme operands");
 }
 #endif
